@@ -54,6 +54,8 @@ def cases(tier, seed):
         yield {"fam": "rand", "i": i}
     for i in range(16 if tier == "quick" else 96):
         yield {"fam": "realpool", "i": i}
+    for i in range(32 if tier == "quick" else 320):
+        yield {"fam": "neartie", "i": i}
 
 
 def setup(ctx):
@@ -143,6 +145,16 @@ def run(case, ctx):
                 pred, refa = pred.astype(np.int32), refa.astype(np.int32)
             its = ["SEMANTIC"]
         run_pair(ctx, pred, refa, its, i, "quick", f)
+        return
+    if fam == "neartie":
+        pred, refa = gen.near_tie_pair(ctx.seed, i)
+        ctx.count("f:family.near_tie_large_instances")
+        for it in ("UNMATCHED_INSTANCE", "SEMANTIC"):
+            p2, r2 = (pred, refa) if it == "UNMATCHED_INSTANCE" else (pred.astype(np.int64), refa.astype(np.int64))
+            cfg = {"input": it, "backend": "cc3d" if it == "SEMANTIC" else None, "matcher": {"kind": "naive", "metric": ["IOU", "DSC"][i % 2], "thr": [0.3, 0.1][(i // 2) % 2], "m2o": False},
+                   "metrics": ["DSC", "IOU", "RVD"]}
+            pipeline.check_evaluate(ctx, ID, p2, r2, cfg)
+            ctx.nontrivial(gen.arr_key(p2, r2), cfg)
         return
     if fam == "realpool":
         pred, refa, f = gen.random_pair(ctx.seed, 100000 + i, dtype=np.uint8, max_inst=3)
